@@ -190,6 +190,7 @@ impl Property for C09 {
             "dropout_in_feedback",
             "learn_with_validation",
             "empty_training_set",
+            "learn_with_zero_epochs",
             "no_top_level_trainable_layer",
             "learn_then_learn",
             "validate_outside_training",
@@ -266,7 +267,8 @@ impl Property for C09 {
                     tol: if rng.chance(0.5) { Some(rng.range(1, 3) as i32) } else { None },
                     print,
                 },
-                3 => Op::Learn { epochs: rng.range(1, 3) as i32, with_val: false, tol: None, print },
+                // ("any number of epochs": now and then none at all - the flags are still toggled)
+                3 => Op::Learn { epochs: if rng.chance(0.15) { 0 } else { rng.range(1, 3) as i32 }, with_val: rng.chance(0.3), tol: None, print },
                 4 => Op::Validate,
                 5 => Op::Predict,
                 _ => Op::PredictBatch,
@@ -316,6 +318,7 @@ impl Property for C09 {
         stats.probe("dropout_in_feedback", in_fb);
         let learns: Vec<usize> = case.ops.iter().enumerate().filter(|(_, o)| matches!(o, Op::Learn { .. })).map(|(i, _)| i).collect();
         stats.probe("empty_training_set", case.train.len() == 0);
+        stats.probe("learn_with_zero_epochs", case.ops.iter().any(|o| matches!(o, Op::Learn { epochs: 0, .. })));
         stats.probe("no_top_level_trainable_layer", case.net.layers.iter().all(|l| matches!(l, LayerCfg::Feedback { .. } | LayerCfg::Maxpool { .. })));
         stats.probe("learn_with_validation", case.ops.iter().any(|o| matches!(o, Op::Learn { with_val: true, .. })));
         stats.probe("epochs_ge_2_with_validation", case.ops.iter().any(|o| matches!(o, Op::Learn { with_val: true, epochs, .. } if *epochs >= 2)));
